@@ -328,10 +328,16 @@ fn run_c12(b: &[u8], t: Tier) -> Outcome {
         return if b[1] % 2 == 0 { crate::c12x::run(&b[2..], t) } else { crate::c12x::run_one_stabilise(&b[2..], t) };
     }
     let mut r = run_case(&prof_c12(t), b, None);
+    if r.classes.gave_up.is_some() {
+        // the drops of such a case are still checked (leaks, panics), but what the model says about
+        // values and runs after it gave up means nothing
+        r.failures.retain(|f| f.prop == "C12" || f.prop == "C04");
+    }
     // no drop order may disturb the values of what remains, and nothing may panic
     for f in r.failures.iter_mut() {
         match f.prop {
-            "C01" | "C03" => {
+            // (C10: a handle that is still held reads differently because another one was dropped)
+            "C01" | "C03" | "C10" => {
                 f.msg = format!("[{} {}] {}", f.prop, f.clause, f.msg);
                 f.prop = "C12";
                 f.clause = "remaining-graph-affected";
